@@ -70,3 +70,8 @@ Definition show_book (b : dmet_book) : string :=
   ++ " ns=" ++ show_nat (b_nsolvers b) ++ " no=" ++ show_nat (b_noptions b) ++ " nf=" ++ show_nat (b_nfrozen b).
 Definition run_dmet (asis : bool) (natm : nat) (fa : frag_atoms) (nf : nat) (sv : solvers_arg) (op : options_arg) : string :=
   show_res show_book (if asis then dmet_book_asis natm fa nf sv op else dmet_book_repaired natm fa nf sv op).
+
+(* ---- the same runs with the model variant selected by the facts regenerated from the source (Gen.DecompFacts) *)
+Definition run_oniom_src (copies sym : bool) (sys : qgeom) (specs : list frag_spec) : string := run_oniom (negb copies) sym sys specs.
+Definition run_dmet_src (cs : list dmet_check) (natm : nat) (fa : frag_atoms) (nf : nat) (sv : solvers_arg) (op : options_arg) : string :=
+  show_res show_book (dmet_book_src cs natm fa nf sv op).
